@@ -31,9 +31,17 @@ RULE = (
     'Hypothesis draws a history of 1-14 steps over 2 workflow names and 2 '
     'source directories: numbered install, install --run-name (2 names), '
     'install --no-run-name, reinstall of an existing run, clean of an '
-    'existing run, manual deletion of the runN link, modification of a '
+    'existing run (any run, or specifically the run runN points to, after '
+    'which cylc itself removes runN), manual deletion of the runN link, '
+    'modification of a '
     'source (so later installs/reinstalls copy different content), numbered '
-    'install from the other source (source mismatch).  After every step the '
+    'install from the other source (source mismatch).  In 1 of 4 histories '
+    'the steps are preceded by a prefix of N plain numbered installs of the '
+    'unchanged source A into one workflow, N from {8..13, 19..21, 99..101} '
+    '(where the run number gains a digit / changes its leading digit): the '
+    'first install of the prefix is executed and checked like any step, the '
+    'other N-1 are not executed, their effect (run2..runN identical to run1, '
+    'runN -> run<N>) is written directly.  After every step the '
     'real tree is compared with the model: a numbered install that must '
     'succeed (workflow dir empty or holding only numbered runs, same source) '
     'creates run<k> with k > every existing numbered run at a path that did '
@@ -42,10 +50,18 @@ RULE = (
     'install (hash of names, types, link targets and file contents, install '
     'logs excluded); reinstall and clean touch only their target run; a '
     'failing install raises WorkflowFilesError and leaves runN on the latest '
-    'run.  Non-trivial = at least 2 successful numbered installs into one '
-    'workflow plus at least one of clean / runN deletion / failing install / '
+    'run.  Non-trivial = at least 2 numbered installs (executed + prefix) '
+    'into one workflow plus at least one of clean / runN deletion / failing install / '
     'named install in the same history; distinct by the history.')
 ASSUMPTIONS = [
+    'Prefix shortcut: the state after N plain numbered installs of one '
+    'unchanged source is run1..runN with identical content (install logs '
+    'aside), runN -> "run<N>" (relative link) and _cylc-install/source; cylc '
+    'keeps no other record of installed runs (install.py / pathutil.py read '
+    'only the directory).  The histories without prefix execute every '
+    'install, and every later executed install of the same source next to '
+    'replicated runs is compared with them (classes replicated-runs-equal-'
+    'real-install / replicated-runs-DIFFER-from-real-install).',
     '"Without reusing a number" is read over runs that exist at install time: '
     're-issue of the number of a run that clean has since deleted is counted '
     '(evidence: number_reissued_after_clean) and not flagged (DESIGN 5a).',
@@ -62,6 +78,10 @@ ASSUMPTIONS = [
 
 WORKFLOWS = ['c48a', 'c48b/sub']
 RUN_NAMES = ['x', 'y']
+# lengths of the all-plain-installs prefix: around the places where the
+# decimal representation of the run number grows (9|10, 99|100) or its
+# leading digit changes (19|20)
+PREFIX_LENGTHS = [8, 9, 9, 10, 10, 11, 11, 12, 13, 19, 20, 21, 99, 100, 101]
 _counter = itertools.count()
 
 
@@ -82,8 +102,10 @@ def histories(draw):
             op = 'instnoname'
         elif r < 66:
             op = 'reinst'
-        elif r < 80:
+        elif r < 76:
             op = 'clean'
+        elif r < 80:
+            op = 'cleanlatest'
         elif r < 87:
             op = 'rmrunN'
         elif r < 95:
@@ -91,8 +113,15 @@ def histories(draw):
         else:
             op = 'instother'
         steps.append([op, a, b])
+    # long numbered histories: in about 1 of 4 cases the history starts
+    # with `pre` plain numbered installs of the unchanged source A (only the
+    # first is executed, see World.replicate)
+    pre = 0
+    if draw(st.integers(0, 3)) == 0:
+        pre = draw(st.sampled_from(PREFIX_LENGTHS))
     # mostly one workflow so that sequences get long
-    return {'steps': steps, 'spread': draw(st.sampled_from([0, 0, 0, 1]))}
+    return {'steps': steps, 'spread': draw(st.sampled_from([0, 0, 0, 1])),
+            'pre': pre, 'prew': draw(st.integers(0, 1))}
 
 
 # ---------------------------------------------------------------- helpers
@@ -157,6 +186,30 @@ class World:
 
     def wdir(self, w):
         return os.path.join(self.cylc_run, w)
+
+    def replicate(self, w, n):
+        """The state after n plain numbered installs of one unchanged source,
+        given the state after the first (run1, runN -> run1,
+        _cylc-install/source): run2..run<n> are copies of run1 (install log
+        rewritten for the run name) and runN is the relative link cylc
+        makes, to run<n>.  cylc keeps no other record of installed runs."""
+        wd = self.wdir(w)
+        tmpl = os.path.join(wd, 'run1')
+        for k in range(2, n + 1):
+            dst = os.path.join(wd, f'run{k}')
+            shutil.copytree(tmpl, dst, symlinks=True)
+            logd = os.path.join(dst, 'log', 'install')
+            if os.path.isdir(logd):
+                for name in os.listdir(logd):
+                    lp = os.path.join(logd, name)
+                    with open(lp) as f:
+                        txt = f.read()
+                    with open(lp, 'w') as f:
+                        f.write(txt.replace(f'{w}/run1', f'{w}/run{k}'))
+        if n > 1:
+            link = os.path.join(wd, 'runN')
+            os.unlink(link)
+            os.symlink(f'run{n}', link)
 
     def runs(self):
         """Existing run dirs (anything holding a flow.cylc directly inside a
@@ -256,7 +309,19 @@ def _run(case, world):
     def add(sig, detail, i, step):
         viol.append(Violation(sig, f'step {i} {step}: {detail}'))
 
-    for i, step in enumerate(case['steps']):
+    pre = case.get('pre', 0)
+    prew = WORKFLOWS[(case.get('prew', 0) % 2) if case['spread'] else 0]
+    prefab = {w: 0 for w in WORKFLOWS}   # runs made by World.replicate
+    tmpl_hash = None
+    steps = list(case['steps'])
+    if pre:
+        # the first install of the prefix is a real, checked step
+        steps.insert(0, ['inst', case.get('prew', 0) % 2, 0])
+        classes.add('prefix-of-%s-installs' % (
+            '8-9' if pre < 10 else '10-13' if pre < 19
+            else '19-21' if pre < 99 else '99-101'))
+
+    for i, step in enumerate(steps):
         op, a, b = step
         w = WORKFLOWS[(a % 2) if case['spread'] else 0]
         wd = world.wdir(w)
@@ -281,6 +346,15 @@ def _run(case, world):
                     r'^run\d+$', os.path.basename(p)) for p in before
             ) or wd in before
             plain = op == 'inst' and not has_named
+            if op in ('inst', 'instother') and len(nums_before) >= 10:
+                classes.add('numbered-install-with>=10-runs')
+                if runN_before is None:
+                    classes.add('numbered-install-with>=10-runs-no-runN')
+                if nums_before != list(range(1, len(nums_before) + 1)):
+                    classes.add('numbered-install-with>=10-runs-and-gaps')
+            elif op in ('inst', 'instother') and nums_before and (
+                    runN_before is None):
+                classes.add('numbered-install-with<10-runs-no-runN')
             # nesting: c48b/sub vs nothing else -> no nesting generated
             err = None
             res = None
@@ -335,6 +409,14 @@ def _run(case, world):
                             add('C48:runN-not-latest',
                                 f'after installing run{k} runN -> {ln!r}',
                                 i, step)
+                        if (tmpl_hash is not None and w == prew and si == 0
+                                and world.src_version[0] == 0):
+                            # a real install of the same source next to the
+                            # replicated runs: must look like them
+                            classes.add(
+                                'replicated-runs-equal-real-install'
+                                if after.get(rundir) == tmpl_hash else
+                                'replicated-runs-DIFFER-from-real-install')
                         # the new run holds the source
                         with open(os.path.join(world.sources[si],
                                                'flow.cylc')) as f1, open(
@@ -416,8 +498,12 @@ def _run(case, world):
                 add('C48:runN-changed-by-reinstall',
                     f'{lnb!r} -> {world.runN(tw)!r}', i, step)
 
-        elif op == 'clean':
+        elif op in ('clean', 'cleanlatest'):
             targets = sorted(before)
+            if op == 'cleanlatest':
+                # the run runN points to (cylc then removes runN itself)
+                tgt = os.path.join(wd, runN_before or '-')
+                targets = [tgt] if tgt in before else []
             if not targets:
                 continue
             rundir = targets[b % len(targets)]
@@ -469,12 +555,27 @@ def _run(case, world):
 
         if viol:
             break
+        if pre and i == 0:
+            if world.numbered(prew) != [1] or world.runN(prew) != 'run1':
+                raise RuntimeError('harness: first install of the prefix '
+                                   'did not give run1 + runN without a '
+                                   'violation being recorded')
+            tmpl_hash = tree_hash(os.path.join(world.wdir(prew), 'run1'))
+            world.replicate(prew, pre)
+            prefab[prew] = pre - 1
+            issued[prew].update(range(1, pre + 1))
+            latest[prew] = f'run{pre}'
 
-    best = max(ok_numbered.values())
+    if max(len(world.numbered(w)) for w in WORKFLOWS) >= 10:
+        # (state at the end of the history)
+        classes.add('ends-with>=10-numbered-runs')
+    best = max(ok_numbered[w] + prefab[w] for w in WORKFLOWS)
     if best >= 2:
         classes.add('numbered-installs>=2')
     if best >= 4:
         classes.add('numbered-installs>=4')
+    if best >= 10:
+        classes.add('numbered-installs>=10')
     seen = {}
     for v in viol:
         seen.setdefault(v.sig, v)
